@@ -4,7 +4,7 @@ From Coq Require Import List Bool Arith ZArith QArith String Lia.
 Import ListNotations.
 From DA Require Import Base.PyRT Base.Val Model.Sem Proofs.SemBasicP Model.ColumnsUsed Proofs.ColumnsUsedP1 Proofs.ColumnsUsedP2
   Proofs.ColumnsUsedP3 Proofs.ColumnsUsedP4 Proofs.ComposeP Model.SqlGen Model.SqlSem Proofs.SqlGenP1 Proofs.SqlGenP2 Proofs.SqlGenP3
-  Proofs.SqlGenP4 Proofs.SqlGenP5 Proofs.SqlGenP6 Proofs.SqlGenP10.
+  Proofs.SqlGenP4 Proofs.SqlGenP5 Proofs.SqlGenP6 Proofs.SqlGenP10 Proofs.SqlGenP11 Proofs.SqlGenP12 Proofs.SqlGenP13 Proofs.SqlGenP14.
 Local Open Scope list_scope.
 
 Definition req (p : op) (usg : option (list string)) : list string :=
@@ -32,12 +32,12 @@ Variable fl : flavor.
 Variable e : env.
 
 Theorem gen_stage1 : forall fuel d p usg n q n',
-  d_allow_extend_merges d = false -> builder_ok p = true -> stage1 p = true -> wf_env e p ->
+  builder_ok p = true -> stage1 (d_allow_extend_merges d) p = true -> wf_env e p ->
   NoDup (req p usg) -> incl (req p usg) (column_names p) ->
   to_near_f fuel d p usg n = Ok (q, n') ->
-  exists T, sem_gen fl p e = Some T /\ Delivers fl e q (req p usg) T.
+  exists T, sem_gen fl p e = Some T /\ Delivers fl e q (req p usg) T /\ (d_allow_extend_merges d = true -> MergeInv q).
 Proof.
-  induction fuel as [|fuel IH]; intros d p usg n q n' NM BO St WF Nu Iu H; [discriminate|].
+  induction fuel as [|fuel IH]; intros d p usg n q n' BO St WF Nu Iu H; [discriminate|].
   set (u := req p usg) in *.
   destruct p as [name cs|s ops wd w|s ops gb|s x|s cs|s ds|s m|s m dels|s cs rev lim|a b on_a on_b jt|a b idc an bn];
     cbn [to_near_f] in H; try discriminate St.
@@ -48,14 +48,64 @@ Proof.
     simpl in BO. apply andb_true_iff in BO. destruct BO as [_ Ncs]. apply nodupb_NoDup in Ncs.
     exists st. split; [simpl; rewrite G; f_equal; apply sel_id_table; assumption|].
     destruct (negb (is_nil u) && negb (set_eqb u cs)) eqn:C; injection H as <- _.
-    + apply delivers_table_reference with (cs := cs); try assumption. destruct u; [discriminate|discriminate].
-    + apply (delivers_table fl e name cs st u (filter (fun c => mem c u) cs) G WT Ncs).
+    + split; [|intros _; apply merge_inv_not_mergeable]. apply delivers_table_reference with (cs := cs); try assumption. destruct u; [discriminate|discriminate].
+    + split; [|intros _; apply merge_inv_table]. apply (delivers_table fl e name cs st u (filter (fun c => mem c u) cs) G WT Ncs).
       * intros c Hc. apply filter_In. split; [apply Iu, Hc|apply mem_In, Hc].
       * intros c Hc. apply filter_In in Hc. tauto.
       * apply NoDup_filter, Ncs.
   - (* extend *)
-    simpl in St. rewrite !andb_true_iff in St. destruct St as [[Sts Wd] We]. apply negb_true_iff in Wd. subst wd.
-    apply window_empty_is in We. subst w.
+    simpl in St. apply andb_true_iff in St. destruct St as [Sts Wd]. destruct wd.
+    { (* windowed: covered when the dialect does not merge at SQL level *)
+      apply negb_true_iff in Wd.
+      destruct (bok_extend_full _ _ _ _ BO) as [BOs [Ic Nk]]. destruct (bok_extend _ _ _ _ BO) as [_ Dk].
+      unfold gen_extend in H.
+      change (match usg with Some u0 => u0 | None => column_names (OExtend s ops true w) end) with u in H.
+      destruct (sub_ops u ops) as [|so0 sor] eqn:ESub.
+      - assert (forall k, In k u -> ~ In k (map fst ops)) as Hno.
+        { intros k Ik I. apply in_map_iff in I. destruct I as [ke [Ek Ike]]. pose proof (in_sub_ops u ops ke Ike) as X. rewrite Ek in X. specialize (X Ik). rewrite ESub in X. destruct X. }
+        assert (incl u (column_names s)) as Ius.
+        { intros k Ik. specialize (Iu k Ik). simpl in Iu. apply in_ext_cols in Iu. destruct Iu as [X|X]; [exact X|destruct (Hno k Ik X)]. }
+        destruct (IH d s (Some u) n q n' BOs Sts (wf_env_unary e _ s eq_refl WF) Nu Ius H) as [S [ES [D MI]]].
+        exists (sem_wextend fl ops w S). split; [simpl; rewrite ES; reflexivity|]. cbn [req] in D.
+        split; [|exact MI]. apply (delivers_transfer fl e q u S); [exact D| | |].
+        + rewrite <- (sel_wextend_unused fl ops w S [] (sem_rows_width fl s e S ES)); [reflexivity|intros k []].
+        + intros K IK. apply sel_wextend_unused; [exact (sem_rows_width fl s e S ES)|]. intros k Ik. apply Hno, IK, Ik.
+        + simpl. intros k Ik. apply in_ext_cols. left. rewrite (sem_cols fl s e S ES). apply Ius, Ik.
+      - assert (sub_ops u ops <> []) as NSub by (rewrite ESub; discriminate).
+        rewrite <- ESub in H.
+        set (u1 := set_union (set_union (set_union u (w_part w)) (w_order w)) (w_rev w)) in *.
+        assert (forall c, In c u1 <-> In c u \/ In c (w_part w ++ w_order w ++ w_rev w)) as Hu1.
+        { intros c. unfold u1. rewrite !In_set_union, !in_app_iff. tauto. }
+        assert (NoDup u1) as Nu1 by (unfold u1; apply NoDup_set_union, NoDup_set_union, NoDup_set_union, Nu).
+        assert (incl u1 (column_names (OExtend s ops true w))) as Iu1.
+        { intros c Hc. apply Hu1 in Hc. destruct Hc as [Hc|Hc]; [apply Iu, Hc|]. simpl. apply in_ext_cols. left.
+          pose proof BO as BO'. simpl in BO'. rewrite !andb_true_iff in BO'. destruct BO' as [[[[_ B1] B2] B3] _].
+          apply in_app_iff in Hc. destruct Hc as [Hc|Hc]; [exact (proj1 (subset_spec _ _) B1 c Hc)|].
+          apply in_app_iff in Hc. destruct Hc as [Hc|Hc]; [exact (proj1 (subset_spec _ _) B2 c Hc)|].
+          exact (proj1 (subset_spec _ _) B2 c (proj1 (subset_spec _ _) B3 c Hc)). }
+        assert (sub_ops u1 ops = sub_ops u ops) as ESO.
+        { unfold u1. rewrite !sub_ops_more; [reflexivity| | |]; intros k Ik I; apply (Dk k Ik); apply in_app_iff; [left|right; apply in_app_iff; left|right; apply in_app_iff; right]; exact I. }
+        clearbody u1.
+        assert (is_nil u1 = false) as NU1.
+        { destruct u1 as [|x t] eqn:E1; [|reflexivity]. exfalso. apply NSub. unfold sub_ops. destruct (filter _ ops) as [|ke t] eqn:EF; [reflexivity|].
+          assert (In ke (filter (fun ke0 => mem (fst ke0) u) ops)) as I by (rewrite EF; left; reflexivity). apply filter_In in I. destruct I as [_ I]. apply mem_In in I.
+          destruct (proj2 (Hu1 (fst ke)) (or_introl I)). }
+        rewrite NU1 in H.
+        assert (subset u1 (column_names (OExtend s ops true w)) = true) as Sb by (apply subset_spec; exact Iu1).
+        rewrite Sb in H. cbn [negb] in H. unfold bind in H.
+        set (su := cfs1 (OExtend s ops true w) u1) in *.
+        destruct (to_near_f fuel d s (Some su) n) as [[sub n1]| |] eqn:ER; try discriminate.
+        rewrite Wd in H. injection H as <- _.
+        assert (NoDup su /\ incl su (column_names s)) as [Nsu Isu].
+        { pose proof (builder_ok_nodup s BOs) as Ns. unfold su, cfs1. simpl. destruct (sub_ops u1 ops); [split; [exact Ns|apply incl_refl]|].
+          split; [apply NoDup_filter, Ns|intros c Hc; apply filter_In in Hc; tauto]. }
+        destruct (IH d s (Some su) n sub n1 BOs Sts (wf_env_unary e _ s eq_refl WF) Nsu Isu ER) as [S [ES [D MI]]]. cbn [req] in D.
+        exists (sem_wextend fl ops w S). split; [simpl; rewrite ES; reflexivity|]. split; [|intros HM; rewrite Wd in HM; discriminate].
+        assert (sub_ops u1 ops <> []) as NSub1 by (rewrite ESO; exact NSub).
+        rewrite <- ESO.
+        exact (node_wextend fl e s ops w sub u u1 S _ _ BO ES Nu Nu1 (fun c Hc => proj2 (Hu1 c) (or_introl Hc)) Iu1 NSub1
+                            (fun c Hc => proj2 (Hu1 c) (or_intror Hc)) D). }
+    apply window_empty_is in Wd. subst w.
     destruct (bok_extend_full _ _ _ _ BO) as [BOs [Ic Nk]].
     unfold gen_extend in H.
     change (match usg with Some u0 => u0 | None => column_names (OExtend s ops false no_window) end) with u in H.
@@ -65,9 +115,9 @@ Proof.
       { intros k Ik I. apply in_map_iff in I. destruct I as [ke [Ek Ike]]. pose proof (in_sub_ops u ops ke Ike) as X. rewrite Ek in X. specialize (X Ik). rewrite ESub in X. destruct X. }
       assert (incl u (column_names s)) as Ius.
       { intros k Ik. specialize (Iu k Ik). simpl in Iu. apply in_ext_cols in Iu. destruct Iu as [X|X]; [exact X|destruct (Hno k Ik X)]. }
-      destruct (IH d s (Some u) n q n' NM BOs Sts (wf_env_unary e _ s eq_refl WF) Nu Ius H) as [S [ES D]].
+      destruct (IH d s (Some u) n q n' BOs Sts (wf_env_unary e _ s eq_refl WF) Nu Ius H) as [S [ES [D MI]]].
       exists (sem_extend fl ops S). split; [simpl; rewrite ES; reflexivity|]. cbn [req] in D.
-      apply (delivers_transfer fl e q u S); [exact D| | |].
+      split; [|exact MI]. apply (delivers_transfer fl e q u S); [exact D| | |].
       * rewrite <- (sel_extend_unused fl ops S [] (sem_rows_width fl s e S ES)); [reflexivity|intros k []].
       * intros K IK. apply sel_extend_unused; [exact (sem_rows_width fl s e S ES)|]. intros k Ik. apply Hno, IK, Ik.
       * simpl. intros k Ik. apply in_ext_cols. left. rewrite (sem_cols fl s e S ES). apply Ius, Ik.
@@ -80,13 +130,35 @@ Proof.
       rewrite Sb in H. cbn [negb] in H. unfold bind in H.
       set (su := cfs1 (OExtend s ops false no_window) u) in *.
       destruct (to_near_f fuel d s (Some su) n) as [[sub n1]| |] eqn:ER; try discriminate.
-      rewrite NM in H. injection H as <- _.
       assert (NoDup su /\ incl su (column_names s)) as [Nsu Isu].
       { pose proof (builder_ok_nodup s BOs) as Ns. unfold su, cfs1. simpl. destruct (sub_ops u ops); [split; [exact Ns|apply incl_refl]|].
         split; [apply NoDup_filter, Ns|intros c Hc; apply filter_In in Hc; tauto]. }
-      destruct (IH d s (Some su) n sub n1 NM BOs Sts (wf_env_unary e _ s eq_refl WF) Nsu Isu ER) as [S [ES D]]. cbn [req] in D.
+      destruct (IH d s (Some su) n sub n1 BOs Sts (wf_env_unary e _ s eq_refl WF) Nsu Isu ER) as [S [ES [D MI]]]. cbn [req] in D.
       exists (sem_extend fl ops S). split; [simpl; rewrite ES; reflexivity|].
-      apply (node_extend fl e s ops sub u S _ _ BO ES Nu Iu NSub D).
+      set (subops := sub_ops u ops) in *. set (origcols := filter (fun k => negb (mem k (map fst subops))) u) in *.
+      assert (merge_ok (pass_terms origcols ++ map (fun ke => (fst ke, TmExpr (snd ke))) subops)
+                       (map (fun k => (k, [k])) origcols ++ map (fun ke => (fst ke, set_union (py_set (cols_used (snd ke))) [])) subops)) as MOK.
+      { apply extend_deps_ok; [apply NoDup_filter, Nu|apply NoDup_map_fst_filter, Nk| |exact NSub].
+        intros k Hk. unfold origcols in Hk. apply filter_In in Hk. destruct Hk as [_ Hk]. apply negb_true_iff, mem_false in Hk. exact Hk. }
+      assert (forall nm0, Delivers fl e (TUnary nm0 (norm (pass_terms origcols ++ map (fun ke => (fst ke, TmExpr (snd ke))) subops)) sub
+                                          (mk_tci (Some su) false None) SfxNone true
+                                          (Some (map (fun k => (k, [k])) origcols ++ map (fun ke => (fst ke, set_union (py_set (cols_used (snd ke))) [])) subops)))
+                                   u (sem_extend fl ops S)
+                          /\ MergeInv (TUnary nm0 (norm (pass_terms origcols ++ map (fun ke => (fst ke, TmExpr (snd ke))) subops)) sub
+                                          (mk_tci (Some su) false None) SfxNone true
+                                          (Some (map (fun k => (k, [k])) origcols ++ map (fun ke => (fst ke, set_union (py_set (cols_used (snd ke))) [])) subops)))) as Fresh.
+      { intros nm0. split; [exact (node_extend fl e s ops sub u S nm0 _ BO ES Nu Iu NSub D)|].
+        intros n0 ts0 s00 ci0 sfx0 dp0 Eq. injection Eq as _ E2 _ _ E5 E6. subst sfx0 dp0. split; [reflexivity|].
+        exists (pass_terms origcols ++ map (fun ke => (fst ke, TmExpr (snd ke))) subops). split; [|exact MOK].
+        rewrite <- E2. destruct MOK as [NL _]. destruct (pass_terms origcols ++ _); [congruence|reflexivity]. }
+      destruct (d_allow_extend_merges d) eqn:HMd.
+      * destruct (try_sql_merge sub _ _) as [[m| |]|] eqn:EM; try discriminate; injection H as <- _; [|split; [exact (proj1 (Fresh _))|intros _; exact (proj2 (Fresh _))]].
+        destruct (try_sql_merge_inv _ _ _ _ EM) as [n0 [ts [s00 [ci0 [ds [Esub [Hcont Em]]]]]]]. subst sub m.
+        destruct (MI eq_refl n0 (Some ts) s00 ci0 SfxNone ds eq_refl) as [_ [l0 [El MOKs]]]. injection El as <-.
+        destruct (merged_delivers fl e s ops n0 ts s00 ci0 ds u S BO ES Nu Iu NSub D MOKs Hcont) as [DM MOKm].
+        split; [exact DM|]. intros _ n1' ts1 s1' ci1 sfx1 dp1 Eq. injection Eq as _ E2 _ _ E5 E6. subst sfx1 dp1. split; [reflexivity|].
+        eexists. split; [symmetry; exact E2|exact MOKm].
+      * injection H as <- _. split; [exact (proj1 (Fresh _))|intros HM; discriminate].
   - (* project *)
     simpl in St. apply andb_true_iff in St. destruct St as [Sts NE0].
     destruct (bok_project _ _ _ BO) as [BOs Nall].
@@ -112,9 +184,9 @@ Proof.
     { split; [apply NoDup_py_set|]. intros c Hc. unfold su in Hc. apply (proj1 (In_py_set _ _)) in Hc. unfold cfs1 in Hc. cbn [cols_from_sources nth] in Hc.
       apply Icols. apply in_app_iff in Hc. apply in_app_iff. destruct Hc as [Hc|Hc]; [left; exact Hc|right].
       unfold ops_cols in *. apply in_flat_map in Hc. destruct Hc as [ke [I1 I2]]. apply in_flat_map. exists ke. split; [|exact I2]. apply filter_In in I1. tauto. }
-    destruct (IH d s (Some su) n sub n1 NM BOs Sts (wf_env_unary e _ s eq_refl WF) Nsu Isu ER) as [S [ES D]]. cbn [req] in D.
+    destruct (IH d s (Some su) n sub n1 BOs Sts (wf_env_unary e _ s eq_refl WF) Nsu Isu ER) as [S [ES [D MI]]]. cbn [req] in D.
     exists (sem_project fl ops gb S). split; [simpl; rewrite ES; reflexivity|].
-    apply (node_project fl e s ops gb sub u u1 S _ BO NE0 ES Nu Iuu1 Iu1 Hsub D).
+    split; [apply (node_project fl e s ops gb sub u u1 S _ BO NE0 ES Nu Iuu1 Iu1 Hsub D)|intros _; apply merge_inv_not_mergeable].
   - (* select_rows *)
     simpl in St. pose proof (bok_select_rows _ _ BO) as BOs.
     change (match usg with Some u0 => u0 | None => column_names (OSelectRows s x) end) with u in H. unfold bind in H.
@@ -125,9 +197,9 @@ Proof.
     assert (NoDup su /\ incl su (column_names s)) as [Nsu Isu].
     { pose proof (builder_ok_nodup s BOs) as Ns. unfold su, cfs1. simpl. split; [apply NoDup_set_union, NoDup_set_inter, Ns|].
       intros c Hc. apply In_set_union in Hc. destruct Hc as [Hc|Hc]; [apply In_set_inter in Hc; tauto|apply Ix, Hc]. }
-    destruct (IH d s (Some su) n sub n1 NM BOs St (wf_env_unary e _ s eq_refl WF) Nsu Isu ER) as [S [ES D]]. cbn [req] in D.
+    destruct (IH d s (Some su) n sub n1 BOs St (wf_env_unary e _ s eq_refl WF) Nsu Isu ER) as [S [ES [D MI]]]. cbn [req] in D.
     exists (sem_select_rows fl x S). split; [simpl; rewrite ES; reflexivity|].
-    apply (node_select_rows fl e s x sub u S _ BO ES Nu Iu D).
+    split; [apply (node_select_rows fl e s x sub u S _ BO ES Nu Iu D)|intros _; apply merge_inv_not_mergeable].
   - (* select_columns *)
     simpl in St. destruct (bok_select_cols _ _ BO) as [BOs Ncs].
     assert (incl cs (column_names s)) as Ics.
@@ -138,7 +210,7 @@ Proof.
     assert (forall c, In c su <-> In c cs /\ In c u) as Hsu by (intros c; unfold su, cfs1; simpl; apply In_set_inter).
     assert (NoDup su /\ incl su (column_names s)) as [Nsu Isu].
     { split; [unfold su, cfs1; simpl; apply NoDup_set_inter, Ncs|]. intros c Hc. apply Hsu in Hc. apply Ics. tauto. }
-    destruct (IH d s (Some su) n sub n1 NM BOs St (wf_env_unary e _ s eq_refl WF) Nsu Isu ER) as [S [ES D]]. cbn [req] in D.
+    destruct (IH d s (Some su) n sub n1 BOs St (wf_env_unary e _ s eq_refl WF) Nsu Isu ER) as [S [ES [D MI]]]. cbn [req] in D.
     exists (sel cs S). split; [simpl; rewrite ES; reflexivity|].
     assert (exists q', (if terms_is_none sub then (match su with [] => Some (empty_terms sub) | _ => None end) else narrow_or_first sub su) = Some q' /\ q = q') as [q' [Eq' ->]].
     { destruct (terms_is_none sub) eqn:TN.
@@ -147,6 +219,7 @@ Proof.
         assert (tkeys sub = []) as EK by (destruct sub as [n0 [ts|]|nm [l|] s0 ci sfx mg dp|nm [l|] s1 c1 j s2 c2 on]; try discriminate; reflexivity).
         pose proof (dv_incl _ _ _ _ _ D c0 (or_introl eq_refl)) as X. rewrite EK in X. destruct X.
       - destruct (narrow_or_first sub su) as [q0|]; [|discriminate]. injection H as <- _. exists q0. split; reflexivity. }
+    split; [|intros HM; exact (merge_inv_narrow sub su q' (MI HM) Nsu Eq')].
     apply (delivers_narrowing fl e sub su S su u (sel cs S) D Nsu (incl_refl _)); try assumption.
     + intros c Hc. apply Hsu. split; [apply Iu, Hc|exact Hc].
     + apply sel_nil_sel.
@@ -163,7 +236,7 @@ Proof.
     rewrite Ekeep in H.
     destruct (to_near_f fuel d s (Some su) n) as [[sub n1]| |] eqn:ER; try discriminate.
     assert (NoDup su /\ incl su (column_names s)) as [Nsu Isu] by (rewrite Esu; split; [exact Nu|intros c Hc; apply Hu, Hc]).
-    destruct (IH d s (Some su) n sub n1 NM BOs St (wf_env_unary e _ s eq_refl WF) Nsu Isu ER) as [S [ES D]]. cbn [req] in D.
+    destruct (IH d s (Some su) n sub n1 BOs St (wf_env_unary e _ s eq_refl WF) Nsu Isu ER) as [S [ES [D MI]]]. cbn [req] in D.
     exists (sem_drop_cols ds S). split; [simpl; rewrite ES; reflexivity|].
     assert (exists q', (if terms_is_none sub then (match u with [] => Some (empty_terms sub) | _ => None end) else narrow_or_first sub u) = Some q' /\ q = q') as [q' [Eq' ->]].
     { destruct (terms_is_none sub) eqn:TN.
@@ -172,6 +245,7 @@ Proof.
     rewrite Esu in D.
     assert (incl u (cols (sem_drop_cols ds S))) as IuT.
     { intros c Hc. simpl. apply filter_In. rewrite (sem_cols fl s e S ES). split; [apply Hu, Hc|apply negb_true_iff, mem_false; apply Hu, Hc]. }
+    split; [|intros HM; exact (merge_inv_narrow sub u q' (MI HM) Nu Eq')].
     apply (delivers_narrowing fl e sub u S u u (sem_drop_cols ds S) D Nu (incl_refl _) (incl_refl _) IuT); try assumption.
     + unfold sem_drop_cols. apply sel_nil_sel.
     + intros C IC. unfold sem_drop_cols. apply sel_sel. intros c Hc. apply IuT, IC, Hc.
@@ -183,9 +257,9 @@ Proof.
     assert (NoDup su /\ incl su (column_names s)) as [Nsu Isu].
     { split; [apply NoDup_py_set|]. intros c Hc. unfold su in Hc. apply (proj1 (In_py_set _ _)) in Hc. unfold cfs1 in Hc. cbn [cols_from_sources nth] in Hc. apply in_map_iff in Hc. destruct Hc as [k [<- Ik]].
       destruct (get_rename m (column_names s) (column_names s) [] k OK (incl_refl _) (Iu k Ik)) as [_ [X _]]. exact X. }
-    destruct (IH d s (Some su) n sub n1 NM BOs St (wf_env_unary e _ s eq_refl WF) Nsu Isu ER) as [S [ES D]]. cbn [req] in D.
+    destruct (IH d s (Some su) n sub n1 BOs St (wf_env_unary e _ s eq_refl WF) Nsu Isu ER) as [S [ES [D MI]]]. cbn [req] in D.
     exists (sem_rename m S). split; [simpl; rewrite ES; reflexivity|].
-    apply (node_rename fl e s m sub u S _ BO ES Nu Iu D).
+    split; [apply (node_rename fl e s m sub u S _ BO ES Nu Iu D)|intros _; apply merge_inv_not_mergeable].
   - (* map_columns *)
     simpl in St. destruct (bok_map_cols _ _ _ BO) as [BOs OK].
     change (match usg with Some u0 => u0 | None => column_names (OMapCols s m dels) end) with u in H. unfold bind in H.
@@ -199,9 +273,9 @@ Proof.
       apply in_map_iff in Hc. destruct Hc as [k [<- Ik]]. rewrite (old_of_dict_of_list m k N1).
       specialize (Iu k Ik). simpl in Iu. apply filter_In in Iu. destruct Iu as [Iu _].
       destruct (get_rename m (column_names s) (column_names s) [] k OK (incl_refl _) Iu) as [_ [X _]]. exact X. }
-    destruct (IH d s (Some su) n sub n1 NM BOs St (wf_env_unary e _ s eq_refl WF) Nsu Isu ER) as [S [ES D]]. cbn [req] in D.
+    destruct (IH d s (Some su) n sub n1 BOs St (wf_env_unary e _ s eq_refl WF) Nsu Isu ER) as [S [ES [D MI]]]. cbn [req] in D.
     exists (sem_drop_cols dels (sem_rename m S)). split; [simpl; rewrite ES; reflexivity|].
-    apply (node_map_cols fl e s m dels sub u S _ BO ES Nu Iu D).
+    split; [apply (node_map_cols fl e s m dels sub u S _ BO ES Nu Iu D)|intros _; apply merge_inv_not_mergeable].
   - (* order_rows *)
     simpl in St. pose proof (bok_order _ _ _ _ BO) as BOs.
     change (match usg with Some u0 => u0 | None => column_names (OOrder s cs rev lim) end) with u in H. unfold bind in H.
@@ -210,9 +284,9 @@ Proof.
     destruct (to_near_f fuel d s (Some su) n) as [[sub n1]| |] eqn:ER; try discriminate. injection H as <- _.
     assert (NoDup su /\ incl su (column_names s)) as [Nsu Isu].
     { split; [apply NoDup_filter, (builder_ok_nodup s BOs)|]. intros c Hc. apply filter_In in Hc. tauto. }
-    destruct (IH d s (Some su) n sub n1 NM BOs St (wf_env_unary e _ s eq_refl WF) Nsu Isu ER) as [S [ES D]]. cbn [req] in D.
+    destruct (IH d s (Some su) n sub n1 BOs St (wf_env_unary e _ s eq_refl WF) Nsu Isu ER) as [S [ES [D MI]]]. cbn [req] in D.
     exists (sem_order fl cs rev lim S). split; [simpl; rewrite ES; reflexivity|].
-    apply (node_order fl e s cs rev lim sub u S _ BO ES Nu Iu D).
+    split; [apply (node_order fl e s cs rev lim sub u S _ BO ES Nu Iu D)|intros _; apply merge_inv_not_mergeable].
   - (* concat_rows *)
     simpl in St. rewrite !andb_true_iff in St. destruct St as [[Sta Stb] Sid].
     destruct (bok_concat _ _ _ _ _ BO) as [BOa [BOb Hab]].
@@ -223,7 +297,7 @@ Proof.
     set (p := OConcat a b idc an bn) in *.
     change (match usg with Some u0 => u0 | None => column_names p end) with u in H.
     set (u1 := if is_nil u then firstn 1 (column_names p) else u) in *.
-    assert (column_names p <> []) as NCp by (apply stage1_cols_nonempty; [exact BO|simpl; rewrite Sta, Stb, Sid; reflexivity]).
+    assert (column_names p <> []) as NCp by (apply (stage1_cols_nonempty (d_allow_extend_merges d)); [exact BO|simpl; rewrite Sta, Stb, Sid; reflexivity]).
     assert (u1 <> [] /\ NoDup u1 /\ incl u1 (column_names p) /\ incl u u1) as [NU1 [Nu1 [Iu1 Iuu1]]].
     { unfold u1. destruct (is_nil u) eqn:EN.
       - assert (u = []) as Eu by (destruct u; [reflexivity|discriminate]).
@@ -253,7 +327,7 @@ Proof.
     injection H as <- _.
     pose proof (wf_env_left e p a b eq_refl WF) as WFa. pose proof (wf_env_right e p a b eq_refl WF) as WFb.
     (* the two operands, with their labels *)
-    assert (forall (x : op) (lab : string), builder_ok x = true -> stage1 x = true -> wf_env e x ->
+    assert (forall (x : op) (lab : string), builder_ok x = true -> stage1 (d_allow_extend_merges d) x = true -> wf_env e x ->
               (forall c, In c (column_names a) <-> In c (column_names x)) ->
               match idc with Some _ => concat_src_ok x = true | None => True end ->
               forall qx m1 m2, to_near_f fuel d (match idc with Some c => builder_extend_const x c (VStr lab) | None => x end) (Some uj) m1 = Ok (qx, m2) ->
@@ -265,22 +339,23 @@ Proof.
       destruct idc as [c0|].
       - rewrite (concat_src_ok_extend x c0 (VStr lab) Okx) in ER.
         assert (builder_ok (OExtend x [(c0, EConst (VStr lab))] false no_window) = true) as BOe by (simpl; rewrite BOx; reflexivity).
-        assert (stage1 (OExtend x [(c0, EConst (VStr lab))] false no_window) = true) as Ste by (simpl; rewrite Stx; reflexivity).
+        assert (stage1 (d_allow_extend_merges d) (OExtend x [(c0, EConst (VStr lab))] false no_window) = true) as Ste by (simpl; rewrite Stx; reflexivity).
         assert (incl uj (column_names (OExtend x [(c0, EConst (VStr lab))] false no_window))) as Ije.
         { intros c Hc. simpl. apply In_add_end. destruct (Ijx c Hc) as [X|X]; [left; exact X|right; exact X]. }
-        destruct (IH d _ (Some uj) m1 qx m2 NM BOe Ste (wf_env_unary e _ x eq_refl WFx) Nuj Ije ER) as [TX [ETX DX]]. cbn [req] in DX.
+        destruct (IH d _ (Some uj) m1 qx m2 BOe Ste (wf_env_unary e _ x eq_refl WFx) Nuj Ije ER) as [TX [ETX [DX _]]]. cbn [req] in DX.
         simpl in ETX. destruct (sem_gen fl x e) as [X|] eqn:EX; [|discriminate]. simpl in ETX. injection ETX as <-.
         exists X. split; [reflexivity|].
         rewrite (sem_extend_const_fresh fl c0 (VStr lab) X) in DX; [exact DX| |exact (sem_rows_width fl x e X EX)].
         apply mem_false. rewrite (sem_cols fl x e X EX). intros I. apply Hab. apply Eax, I.
       - assert (incl uj (column_names x)) as Ije by (intros c Hc; destruct (Ijx c Hc) as [X|[]]; exact X).
-        destruct (IH d x (Some uj) m1 qx m2 NM BOx Stx WFx Nuj Ije ER) as [X [EX DX]]. exists X. split; [exact EX|exact DX]. }
+        destruct (IH d x (Some uj) m1 qx m2 BOx Stx WFx Nuj Ije ER) as [X [EX [DX _]]]. exists X. split; [exact EX|exact DX]. }
     assert (match idc with Some _ => concat_src_ok a = true | None => True end /\ match idc with Some _ => concat_src_ok b = true | None => True end) as [Oka Okb].
     { destruct idc; [apply andb_true_iff in Sid; exact Sid|split; exact I]. }
     destruct (Hop a an BOa Sta WFa (fun c => iff_refl _) Oka ql n n1 ERl) as [A [EA DA]].
     destruct (Hop b bn BOb Stb WFb Eab Okb qr n1 n2 ERr) as [B [EB DB]].
     pose proof (sem_cols fl a e A EA) as ECA. pose proof (sem_cols fl b e B EB) as ECB.
     exists (sem_concat idc an bn A B). split; [simpl; rewrite EA, EB; reflexivity|].
+    split; [|intros _; apply merge_inv_binary].
     apply (delivers_union fl e _ uj ql qr _ _ u (sem_concat idc an bn A B) DA DB Nuj NUj).
     + intros c Hc. apply Iu1j, Iuu1, Hc.
     + intros c Hc. specialize (Iu c Hc). rewrite ECp in Iu. unfold sem_concat. destruct idc; cbn [cols]; rewrite ECA; [exact Iu|rewrite app_nil_r in Iu; exact Iu].
